@@ -12,11 +12,12 @@ def consts(events=(1,), nodes=1, filters=0, enq=3, disp=0, depth=5, ordered=Fals
 
 
 def world(name, obj=1, threading=0, key=0, arg=0, mode=0, map_=0, filt=0, order=0, callback=0, fill="0xA5", fraction=1.0,
-          compiler="g++", std="c++11", opt="-O1", only_tags=None, sanitize=True, cancont=0):
+          compiler="g++", std="c++11", opt="-O1", only_tags=None, sanitize=True, cancont=0, mixins=0):
     w = {"name": name, "source": "dq_interp.cpp",
          "defines": ["W_OBJ=%d" % obj, "W_THREADING=%d" % threading, "W_KEY=%d" % key, "W_ARG=%d" % arg, "W_MODE=%d" % mode, "W_MAP=%d" % map_,
-                     "W_FILTER=%d" % filt, "W_ORDER=%d" % order, "W_CALLBACK=%d" % callback, "W_FILL=%s" % fill] + (["W_CANCONT=1"] if cancont else []),
-         "fraction": fraction, "compiler": compiler, "std": std, "opt": opt, "sanitize": sanitize, "trace_env": {"ORDER": str(order), "CANCONT": str(cancont)}}
+                     "W_FILTER=%d" % filt, "W_ORDER=%d" % order, "W_CALLBACK=%d" % callback, "W_FILL=%s" % fill] + (["W_CANCONT=1"] if cancont else []) + (["W_MIXINS=%d" % mixins] if mixins else []),
+         "fraction": fraction, "compiler": compiler, "std": std, "opt": opt, "sanitize": sanitize,
+         "trace_env": {"ORDER": str(order), "CANCONT": str(cancont), "VETO": {0: "0", 1: "0", 2: "1", 3: "2", 4: "1"}[mixins]}}
     if only_tags:
         w["only_tags"] = only_tags
     return w
@@ -96,6 +97,11 @@ def c12(tier, seed):
     worlds = [world("f_val", filt=1, arg=0, only_tags=["filters"]),
               world("f_cref_multi", filt=1, arg=1, threading=1, fraction=0.3, fill="0xFF", only_tags=["filters"]),
               world("f_ref_incl_str", filt=1, arg=2, mode=1, key=1, fraction=0.3, fill="0x00", only_tags=["filters"]),
+              # several mixins: one without a hook in front of MixinFilter; a second hook after / before the filters
+              world("f_val_plain_first", filt=1, arg=0, mixins=1, fraction=0.4, only_tags=["filters"]),
+              world("f_val_veto_after", filt=1, arg=0, mixins=2, fraction=0.4, only_tags=["filters"]),
+              world("f_ref_veto_before_multi", filt=1, arg=2, mixins=3, threading=1, fraction=0.3, only_tags=["filters"]),
+              world("f_cref_plain_veto", filt=1, arg=1, mixins=4, fraction=0.3, fill="0xFF", only_tags=["filters"]),
               world("w_val_cancont", filt=1, arg=0, cancont=1, only_tags=["wrappers"]),
               world("w_cref_incl_cancont", filt=1, arg=1, mode=1, key=2, cancont=1, threading=1, fraction=0.4, only_tags=["wrappers"]),
               world("w_ref_nocancont", filt=1, arg=2, fraction=0.4, only_tags=["wrappers"], fill="0xFF")]
